@@ -1,0 +1,11 @@
+//go:build verif
+
+// Contracts for package utils, read by /verif/govc. Comments only.
+package utils
+
+// CreateDBManifest (C14): the manifest address is the content address of exactly (name, type, "/ipfs/"+AC
+// address) — nothing ambient (time, peer, randomness) can enter it.
+//@ func CreateDBManifest
+//@   props C14
+//@   ensures result1 == nil ==> result == manifestHash(name, dbType, pjoin(strs("/ipfs", accessControllerAddress)))
+//@   modifies nothing
